@@ -38,16 +38,38 @@ Theorem c11_image_from_fields :
   forall f g, map fst f = map fst g -> (forall j, fget f j = fget g j) -> ser_flds f = ser_flds g.
 Proof. exact ser_flds_ext. Qed.
 
-(* Instance, FADT: for every constructor argument and every sequence of builder calls inside the reference's domain (any order,
-   any repetition, interleaved with the other builders and the profile selectors), in both build profiles, the Flags dword at
-   offset 112 of the emitted table is exactly the union of the specification bits (flag_ref, Spec/FadtS.v) of the flags
-   requested; that nothing else of the image moves is c04_fixed_structures_refine (the image equals the reference image). *)
+(* Instance, FADT: for every constructor argument and every sequence of builder calls and direct assignments of the public
+   fields inside the reference's domain (any order, any repetition, interleaved freely), in both build profiles, the Flags dword
+   at offset 112 of the emitted table is exactly: the value of the LAST direct assignment `b.flags = v` of the history (op
+   (10 35 v) of Spec/FadtS.v; 0 when the history contains none) united with the specification bits (flag_ref, Spec/FadtS.v) of
+   the flags requested by the flag() calls made AFTER that assignment.  (base, post) = flags_cut ops (Proofs/FadtP.v): base =
+   Some v for the last assignment, post = the operations after it (all of them when there is none).  That nothing else of the
+   image moves is c04_fixed_structures_refine (the image equals the reference image). *)
 Theorem c11_fadt_flags :
   forall md ctor ops r,
     ts_image fadt_spec ctor ops = Some r -> fadt_ctor_bytes ctor ->
     exists f0 f, fadt_new ctor = Some f0 /\ run_steps (fadt_step md) f0 ops = Some f /\
-                 field_at (fadt_image f) 112 4 = fold_left N.lor (concat (map spec_flag_call ops)) 0 mod 2 ^ 32.
+                 field_at (fadt_image f) 112 4 =
+                 fold_left N.lor (concat (map spec_flag_call (snd (flags_cut ops))))
+                           (match fst (flags_cut ops) with Some v => v | None => 0 end) mod 2 ^ 32.
 Proof. exact fadt_refines_flags. Qed.
+
+(* the two readings of (base, post): a history without direct assignment of `flags`: the union of the bits of all the flags
+   requested; a history whose last direct assignment is `flags = v`, followed by [post]: v united with the bits requested in post *)
+Theorem c11_fadt_flags_no_assign :
+  forall md ctor ops r,
+    ts_image fadt_spec ctor ops = Some r -> fadt_ctor_bytes ctor -> no_flags_assignment ops ->
+    exists f0 f, fadt_new ctor = Some f0 /\ run_steps (fadt_step md) f0 ops = Some f /\
+                 field_at (fadt_image f) 112 4 = fold_left N.lor (concat (map spec_flag_call ops)) 0 mod 2 ^ 32.
+Proof. exact fadt_refines_flags_no_assign. Qed.
+
+Theorem c11_fadt_flags_after_assign :
+  forall md ctor pre v post r,
+    ts_image fadt_spec ctor (pre ++ SL [SA 10; SA 35; SA v] :: post) = Some r -> fadt_ctor_bytes ctor ->
+    no_flags_assignment post ->
+    exists f0 f, fadt_new ctor = Some f0 /\ run_steps (fadt_step md) f0 (pre ++ SL [SA 10; SA 35; SA v] :: post) = Some f /\
+                 field_at (fadt_image f) 112 4 = fold_left N.lor (concat (map spec_flag_call post)) v mod 2 ^ 32.
+Proof. exact fadt_refines_flags_after_assign. Qed.
 
 (* Instance, CEDT fixed memory window: whenever the reference accepts the structure, the model emits it byte for byte, and its
    window-restrictions word (offset 32) is the sum of the distinct bits 1 2 4 8 16 of exactly the restriction options invoked
@@ -341,6 +363,8 @@ Print Assumptions c11_bit_set_iff_invoked.
 Print Assumptions c11_setter_frame.
 Print Assumptions c11_image_from_fields.
 Print Assumptions c11_fadt_flags.
+Print Assumptions c11_fadt_flags_no_assign.
+Print Assumptions c11_fadt_flags_after_assign.
 Print Assumptions c11_cedt_window_restrictions.
 Print Assumptions c11_calls_order_irrelevant.
 Print Assumptions c11_flag_bytes.
